@@ -39,3 +39,4 @@ else
   echo "NOT CONFIRMED $N"
 fi
 cd /repo && git worktree remove --force $WT
+cd /repo && git worktree remove --force $WT 2>/dev/null; git worktree prune
